@@ -15,6 +15,26 @@ E1_TECH = ('bounded symbolic execution of the real yatiml/PyYAML code with '
            'bounds), counterexamples replayed on the unstubbed public API')
 
 CHECKS = {
+    'C09': dict(
+        engine='E2-z3-regex',
+        text='Decided for strings of every length: the implicit-resolver '
+             'table of a live yatiml Loader instance and PyYAML\'s '
+             'Resolver.resolve are encoded as z3 regex terms on every run; '
+             'float/bool soundness and completeness against the YAML 1.2 '
+             'grammar, resolve/construct agreement and "int/null/timestamp '
+             'typing is PyYAML\'s" are unsat queries (sat witnesses are '
+             'replayed through load_function()). Plus bounded end-to-end '
+             'symbolic execution of the public load function over all strings '
+             'up to length 3 (thorough 5) over the number alphabet and case '
+             'variants of boolean look-alikes.',
+        design='4/C09',
+        technique='SMT (z3 string/regex theory) over the real resolver '
+                  'tables, unbounded in string length; CrossHair bounded '
+                  'end-to-end runs; cvc5 cross-check in the thorough tier',
+        note='Trusted base: the re->z3 translator and the encoding of '
+             'Resolver.resolve (both validated on every run against '
+             're.match / Loader.resolve on a corpus and on every witness), '
+             'z3; the domain excludes strings containing a newline.'),
     'C14': dict(
         text='Bounded model checking by symbolic execution of the real '
              'yatiml.Node methods: every 2-operation (thorough: 3) sequence '
